@@ -133,6 +133,11 @@ pub fn run(ctx: &mut RunCtx) -> Result<(), Violation> {
     let mut f = ctx.stream("faults");
     let class = pick_class(&mut w, [14, 2, 0, 0]);
     let exact = w.chance(1, 2);
+    // a share of the runs binds a vector of hundreds to thousands of public inputs
+    if ctx.run % 100 == 41 {
+        let k = crate::scenario::pi_heavy_count(&mut w);
+        crate::scenario::set_pi_heavy(Some(k));
+    }
     let sc = gen_scenario(ctx, &mut w, &ScenCfg { class, heavy: false, raw: true, exact_target: exact, max_ops: 16 });
     let sig = scenario_sig(&sc);
     let pp = deploy::pp_with_degree(sc.degree);
@@ -215,6 +220,22 @@ pub fn run(ctx: &mut RunCtx) -> Result<(), Violation> {
             let m = apply(&honest[0], &fault, None, &mut f);
             if m != honest[0] {
                 fault_list.push((fault.kind().to_string(), m, 0));
+            }
+        }
+    }
+    // long vectors: the far end and the positions around block-size multiples
+    {
+        let len = honest[0].pi.len();
+        if len > 64 {
+            let mut pos = vec![len - 1, len - 2, len / 2, 255, 256, 1023, 1024];
+            pos.retain(|p| *p < len);
+            for i in pos {
+                for fault in [ChanFault::PiAddOne(i), ChanFault::PiZero(i), ChanFault::PiSwap(i, i.saturating_sub(1)), ChanFault::PiDrop(i)] {
+                    let m = apply(&honest[0], &fault, None, &mut f);
+                    if m != honest[0] {
+                        fault_list.push((fault.kind().to_string(), m, 0));
+                    }
+                }
             }
         }
     }
